@@ -6,6 +6,7 @@ checked in (DESIGN.md section 3, C03-D1..D6).  SQLite's own guarantees and the
 behaviour at each kill instant are not decided.
 """
 import ast
+import os
 
 from ..index import dotted, walk_no_nested, norm_text, AnalysisError
 from ..cfg import describe_path
@@ -77,6 +78,28 @@ def run(ctx):
                   '%s uses the database outside a single transaction scope (%d scopes)' % (m.name, len(withs)), m.loc())
     if n_ops < 10:
         ck.bad('C03-D1', base.qual, 'table operations', 'only %d table operations found (expected >= 10)' % n_ops)
+    # `commit` ends a transaction only if one was begun: nothing in the database layer switches the driver or the engine to
+    # autocommit (pysqlite `isolation_level = None` without a BEGIN of one's own, SQLAlchemy AUTOCOMMIT): every statement of an
+    # operation would then be durable on its own and a kill between two of them leaves half an operation behind
+    auto = []
+    for m2 in repo.modules.values():
+        if not m2.name.startswith('wpull.database') or m2.name.endswith('_test'):
+            continue
+        for x in ast.walk(m2.tree):
+            if isinstance(x, ast.Assign) and any(isinstance(t, ast.Attribute) and t.attr in ('isolation_level', 'autocommit') for t in x.targets):
+                v = x.value
+                if not (isinstance(v, ast.Constant) and v.value in ('DEFERRED', 'IMMEDIATE', 'EXCLUSIVE', False)):
+                    auto.append((m2, x))
+            if isinstance(x, ast.Call):
+                for k in x.keywords:
+                    if (k.arg == 'isolation_level' and isinstance(k.value, ast.Constant) and (k.value.value is None or str(k.value.value).upper() == 'AUTOCOMMIT')) \
+                            or (k.arg == 'autocommit' and isinstance(k.value, ast.Constant) and k.value.value is True):
+                        auto.append((m2, x))
+    for m2, x in auto:
+        ck.bad('C03-D1', m2.name, 'no autocommit in the database layer', '`%s` puts the connection into autocommit: the statements of one table '
+               'operation are no longer one transaction' % norm_text(x)[:60], '%s:%d' % (os.path.relpath(m2.path, repo.root), x.lineno))
+    if not auto:
+        ck.ok('C03-D1', 'wpull.database', 'no autocommit in the database layer')
     # ... and an operation that has its own scope does not hand part of its work to a helper with another one (two commits:
     # a kill between them leaves half of the operation behind)
     def opens(m):
